@@ -253,6 +253,48 @@ def fullKey {H : Type} (p : Prefix H) (o : Nat) : Prefix H × Nat := (p, o)
 /-- NOT the code: (seqnum, root hash, salt) only -/
 def coarseKey {H : Type} (p : Prefix H) (_o : Nat) : Nat × H × Nat := (p.seqnum, p.root, p.salt)
 
+/-! ### which fields of a share the signature covers, and which are in the version identity
+
+layout.py: the signed prefix is `>BQ32s16s BBQQ` (SDMF: version, seqnum, root hash, IV, k, N, segsize,
+datalength) / `>BQ32sBBQQ` (MDMF: the same without the IV); the offsets table follows it, unsigned.
+servermap.py `_got_signature_one_share`: verinfo = (seqnum, root_hash, IV-or-None, segsize, datalength,
+k, N, prefix, offsets_tuple) -- every signed field (inside `prefix`) plus the offsets.  The map update
+checks: known format version, public key against the cap's fingerprint (cold node), signature over the
+prefix.  It does not look at the hash chains, the block data or the encrypted private key. -/
+
+inductive HField
+  | version | seqnum | rootHash | salt | kN | segsize | datalen      -- the signed prefix (salt: SDMF only)
+  | offsets                                                          -- the offsets table
+  | pubkey | signature | shareHashChain | blockHashTree | shareData | encPrivkey
+  deriving DecidableEq, Repr
+
+def HField.all : List HField :=
+  [.version, .seqnum, .rootHash, .salt, .kN, .segsize, .datalen, .offsets, .pubkey, .signature,
+   .shareHashChain, .blockHashTree, .shareData, .encPrivkey]
+
+/-- inside the byte range the signature is computed over -/
+def signedField : HField → Bool
+  | .version | .seqnum | .rootHash | .salt | .kN | .segsize | .datalen => true
+  | _ => false
+
+/-- part of `verinfo`, the identity under which the servermap files the share -/
+def inVerinfo : HField → Bool
+  | .offsets => true
+  | f => signedField f
+
+/-- what a map update (fresh read-cap node) does with a share in which exactly this field was altered -/
+inductive MapOutcome
+  | rejected            -- not entered (CorruptShareError / UnknownVersionError / bad key)
+  | sameIdentity        -- entered under the verinfo of the intact shares
+  | newIdentity         -- entered under a verinfo of its own
+  deriving DecidableEq, Repr
+
+def mapOutcome : HField → MapOutcome
+  | .offsets => .newIdentity
+  | .pubkey | .signature => .rejected
+  | .shareHashChain | .blockHashTree | .shareData | .encPrivkey => .sameIdentity
+  | _ => .rejected                       -- a signed field: the signature no longer matches the prefix
+
 /-! ### who can make a version: symbolic terms and adversary knowledge (Dolev–Yao) -/
 
 inductive T
